@@ -15,8 +15,13 @@ from ..scenario import run_scenario
 from . import register
 
 CTYPES = ["h1", "h1tls", "h2tls", "h2pk", "fwd", "tun_h1", "tun_h2", "socks_h1",
-          "socks_tls", "socks_auth_h2", "stun_h1"]
+          "socks_tls", "socks_auth_h2", "stun_h1", "uds_h1"]
 COMPANY = ["alone", "queued", "shared", "joiner", "behind"]
+
+
+def base_index(ctype, company):
+    """Index of the base scenario with this connection type and company."""
+    return COMPANY.index(company) * len(CTYPES) + CTYPES.index(ctype)
 
 
 def base_scenario(seed, index, ex="asyncio"):
@@ -61,6 +66,15 @@ def base_scenario(seed, index, ex="asyncio"):
             px["auth"] = auth
     if px:
         pool["proxy"] = px
+    ro = gen.mk_rng(seed, "c05opts")
+    if ro.random() < 0.2:
+        pool["socket_options"] = [[1, 9, 1]]         # SOL_SOCKET, SO_KEEPALIVE
+    if ro.random() < 0.15 and ctype != "uds_h1":
+        pool["local_address"] = "127.0.0.9"
+    if ctype == "uds_h1":
+        # every connection of the pool goes to one UNIX domain socket
+        pool["uds"] = "/run/sim.sock"
+        eps["unix:/run/sim.sock"] = dict(eps[f"a.test:{port}"])
     net = {"latency": r.choice(["zero", "fixed", "small", "small"]),
            "seg": r.choice(["whole", "random", "segment"]),
            "close_latency": r.choice([0.0, 0.0, 0.001, 0.3]),
